@@ -154,12 +154,13 @@ Definition resolve (inc d : ent) : ent :=
 Definition creates (me : N) (inc d : ent) : bool :=
   add_conflict inc d && negb (cid_ltb (at_ d) (at_ inc)) && (snd (at_ d) =? me).
 
-(* The copy is recycled+conflict, so it never counts as live.  Its other attributes are not
-   tracked: a third replica that already holds the loser's change-id range receives the copy
-   without them (ReplIncrementalEntryV1::new only ships attributes changed inside the requested
-   range), so they are canonicalised to 0 / None here and by the harness. *)
+(* The copy is a NEW entry of the minting server: created at, and all attributes stamped with, the
+   transaction's change id (/repo 41afc51; before that fix it kept the loser's creation id and old
+   attribute change ids, and third replicas received it without name/spn/gidnumber).  It is
+   recycled+conflict, so it never counts as live; its other attributes are not tracked and are
+   canonicalised to 0 / None here and by the harness. *)
 Definition cnf_copy (c : cid) (base : N) (d : ent) : ent :=
-  mkE (base + uuid d) (at_ d) 0 (0, 0) 0 (0, 0) None (0, 0) 2 c true.
+  mkE (base + uuid d) c 0 (0, 0) 0 (0, 0) None (0, 0) 2 c true.
 
 Definition upd (inc : list ent) (d : ent) : ent :=
   match find (uuid d) inc with Some i => fixup (resolve i d) | None => d end.
